@@ -5,4 +5,10 @@ from pyvc.contracts import export_contract
 key=sys.argv[1]
 req={'property':'X','obligation':key+'/x','function':key,'contract':export_contract(key),'seed':0,'budget':int(sys.argv[2]) if len(sys.argv)>2 else 50}
 p=subprocess.run(['/venv/bin/python','/verif/harness/falsify.py'],input=json.dumps(req),capture_output=True,text=True,cwd='/verif',env={'PYTHONPATH':'/repo','PATH':'/usr/bin:/bin'})
-print(p.stdout[-1500:]); print(p.stderr[-800:])
+try:
+    d=json.loads(p.stdout.strip().splitlines()[-1])
+    w=d.pop('witness',None)
+    print(json.dumps(d)[:1500]); print('witness note:', (w or {}).get('note'))
+except Exception:
+    print(p.stdout[-1500:])
+print(p.stderr[-800:])
